@@ -14,6 +14,7 @@ import SMGo.Spec.SM4
 import SMGo.Model.SM4Inst
 import Driver.SM2
 import Driver.GCM
+import Driver.CTIR
 import Driver.GenDump
 open SMGo
 
@@ -106,6 +107,7 @@ def handle (line : String) : String :=
   if let some r := handleSM4 toks then r else
   if let some r := Driver.SM2.handle toks then r else
   if let some r := Driver.GCM.handle toks then r else
+  if let some r := Driver.CTIR.handle toks then r else
   if let some r := Driver.GenDump.handle toks then r else
   match toks with
   | ["cmp", a, b, l] =>
